@@ -704,7 +704,9 @@ func (s *c04State) judge() {
 		return
 	}
 	t0 := time.Now()
+	alive := c04KeepAlive(c)
 	out, err := exec.Command(mr, filepath.Join(c.Out, "cases.txt")).Output()
+	alive()
 	if err != nil {
 		c.Extra["modelrun"] = "failed: " + err.Error()
 		return
@@ -745,6 +747,27 @@ func (s *c04State) judge() {
 		c.Add("fail."+sig, e.count)
 		c.Sample(fmt.Sprintf("%s %s: setup %v | calls %v | final %s", e.id, sig, e.prog.Setup, h.Calls, h.Final))
 	}
+}
+
+// main.go's watchdog reads c.NCases every 30 s and reports a deadlock when it did not move; while
+// the child binary or the model runner works for this process, keep it moving (and restore it)
+func c04KeepAlive(c *Ctx) func() {
+	stop := make(chan struct{})
+	done := make(chan struct{})
+	added := 0
+	go func() {
+		defer close(done)
+		for {
+			select {
+			case <-stop:
+				return
+			case <-time.After(5 * time.Second):
+				c.NCases++
+				added++
+			}
+		}
+	}()
+	return func() { close(stop); <-done; c.NCases -= added }
 }
 
 // ---------------------------------------------------------------- driver
@@ -819,7 +842,7 @@ func c04StressPhase(s *c04State) {
 	c := s.c
 	nprog, reps := 260, 160
 	if c.Tier == "thorough" {
-		nprog, reps = 2500, 600
+		nprog, reps = 2000, 500
 	}
 	if v := os.Getenv("C04_PROGS"); v != "" {
 		nprog = atoi(v)
